@@ -950,9 +950,9 @@ def run(chk: lib.Check):
         return hashlib.sha1(s.encode()).hexdigest()[:12]
 
     # ---------------- streams
-    limit_full = 4 if quick else 6
-    nrandom = 12 if quick else 120
-    ndocs = 56 if quick else 600
+    limit_full = 4 if quick else 5
+    nrandom = 12 if quick else 60
+    ndocs = 56 if quick else 300
     for d in range(ndocs):
         tag = "empty52" if (d % 5) else rng.choice([t for t in bases if t != "empty52"])
         base = bases[tag]
@@ -963,11 +963,22 @@ def run(chk: lib.Check):
         # exhaustive permutation is bounded by the number of instructions; prefer documents that fit
         lf = limit_full if (tag == "empty52") else min(limit_full, 3 if quick else 4)
         one_document(plan, base, lf, nrandom if tag == "empty52" else max(4, nrandom // 6))
+    # thorough: documents with exactly 6 instructions under all 720 permutations
+    if not quick:
+        done = 0
+        for _ in range(400):
+            if done >= 10:
+                break
+            plan = gen_plan(rng, bases["empty52"], rng.choice([4, 5, 6, 7]), stable=True,
+                            malform=rng.choice([None, None, None, "unf", "dup"]))
+            if len(plan.instrs) == 6:
+                one_document(plan, bases["empty52"], 6, 720)
+                done += 1
     # the unstable stream (known finding: sibling order)
-    for d in range(8 if quick else 80):
+    for d in range(8 if quick else 40):
         base = bases["empty52"]
         plan = gen_plan(rng, base, rng.choice([4, 6, 8]), stable=False)
-        one_document(plan, base, 3 if quick else 5, 8 if quick else 40)
+        one_document(plan, base, 3 if quick else 4, 8 if quick else 30)
 
     # the nested-sync stream (oracle only: the model's sync entries have no nested sync).  A sync entry that
     # creates its object from find + set with a promise-valued set and carries a nested sync.
@@ -1010,7 +1021,7 @@ def run(chk: lib.Check):
     chk.coverage["instructions_per_document"] = {str(k): v for k, v in sorted(size_hist.items())}
     chk.coverage["features"] = dict(sorted(feat_count.items()))
     chk.coverage["rule"] = ("generated documents over LA functions/ports/exchanges/components/packages/classes/properties; every "
-                            "permutation of the instructions for documents with <= %d instructions, %d random permutations beyond; "
+                            "permutation of the instructions for documents with <= %d instructions (thorough: also 10 documents with 6 instructions, 720 permutations each), %d random permutations beyond; "
                             "models: %s; non-trivial = at least one deferral happened" % (limit_full, nrandom, ", ".join(bases)))
     chk.coverage["exhaustive"] = True
     if cases:
